@@ -840,6 +840,223 @@ pub fn decode_burst_phase() -> Stats {
 }
 
 /// make signatures specific enough to tell different defects apart
+// ---------------------------------------------------------------------------------------------
+// C05 over real sockets: the reply stream of a session whose peer reads slowly
+// ---------------------------------------------------------------------------------------------
+
+/// `m` pipelined "read 125 registers" requests; the peer starts reading only when the server's
+/// send queue has stopped moving, then drains in pieces of varying size. The reply stream must be
+/// exactly the concatenation of the `m` reply frames.
+pub async fn run_backpressure_case(tls: bool, small_sndbuf: bool, m: usize, pattern: usize) -> Vec<(String, String)> {
+    use tokio::io::AsyncReadExt;
+    let app = net_app(&[1]);
+    let sock = match tokio::net::TcpSocket::new_v4() {
+        Ok(s) => s,
+        Err(e) => return vec![("MACHINERY:socket".into(), e.to_string())],
+    };
+    if small_sndbuf {
+        // accepted sockets inherit the listener's buffer sizes
+        let _ = sock.set_send_buffer_size(4096);
+    }
+    if sock.bind("127.0.0.1:0".parse().unwrap()).is_err() {
+        return vec![("MACHINERY:bind".into(), "bind".into())];
+    }
+    let listener = match sock.listen(16) {
+        Ok(l) => l,
+        Err(e) => return vec![("MACHINERY:listen".into(), e.to_string())],
+    };
+    let addr = listener.local_addr().unwrap();
+    let handle = if tls {
+        let cfg = match TlsServerConfig::new(&cert_path("ca_a"), &cert_path("srv_valid"), &key_path("srv_valid"), None, MinTlsVersion::V1_2, CertificateMode::AuthorityBased) {
+            Ok(c) => c,
+            Err(e) => return vec![("MACHINERY:tls-config".into(), e.to_string())],
+        };
+        let (h, task) = create_tls_server_task(2, listener, app.map.clone(), cfg, AddressFilter::Any, DecodeLevel::nothing());
+        tokio::spawn(task.run());
+        h
+    } else {
+        let (h, task) = create_tcp_server_task(2, listener, app.map.clone(), AddressFilter::Any, DecodeLevel::nothing());
+        tokio::spawn(task.run());
+        h
+    };
+    let mut problems = vec![];
+    let pdu = [3u8, 0, 0, 0, 125];
+    let result: Result<(), (String, String)> = async {
+        let stream = peer_connect(addr, tls, false).await.map_err(|e| ("MACHINERY:connect".to_string(), e))?;
+        let (mut rd, mut wr) = tokio::io::split(stream);
+        // the reference reply, learned from an ordinary exchange on the same connection
+        if !write_all(&mut wr, &mbap_frame(0, 1, &pdu)).await {
+            return Err(("MACHINERY:write".into(), "first request".into()));
+        }
+        let reference = match read_n(&mut rd, 259, STEP_TIMEOUT).await {
+            ReadOutcome::Bytes(b) if b[..2] == [0, 0] && b[7] == 3 && b[8] == 250 => b,
+            other => return Err(("MACHINERY:reference-reply".into(), format!("{other:?}"))),
+        };
+        let mut batch = Vec::with_capacity(m * 12);
+        for i in 1..=m {
+            batch.extend_from_slice(&mbap_frame(i as u16, 1, &pdu));
+        }
+        let writer = tokio::spawn(async move {
+            // (tokio-rustls accepts plaintext into its own buffer: without the flush the last
+            // records may never leave the peer)
+            let r = match wr.write_all(&batch).await {
+                Ok(()) => wr.flush().await,
+                Err(e) => Err(e),
+            };
+            (wr, r.is_ok())
+        });
+        // start reading only once the server's send queue has stopped moving (or after a second)
+        let mut last = (u64::MAX, u64::MAX);
+        let mut same = 0;
+        for _ in 0..50 {
+            tokio::time::sleep(Duration::from_millis(20)).await;
+            let q = server_queues(addr);
+            if q == last && q.0 > 0 {
+                same += 1;
+                if same >= 3 {
+                    break;
+                }
+            } else {
+                same = 0;
+            }
+            last = q;
+        }
+        let sizes: [&[usize]; 4] = [&[1, 7, 64, 259, 260, 1000, 4096], &[258, 1, 259, 518, 3], &[4096, 16384], &[13, 100, 37]];
+        let sizes = sizes[pattern % 4];
+        let total = m * 259;
+        let mut got = 0usize;
+        let mut buf = vec![0u8; 16384];
+        let mut k = 0usize;
+        while got < total {
+            let want = sizes[k % sizes.len()].min(total - got);
+            k += 1;
+            let n = match tokio::time::timeout(STEP_TIMEOUT, rd.read(&mut buf[..want])).await {
+                Err(_) => {
+                    // diagnosis: does one more request shake the missing replies loose?
+                    let mut nudged = 0usize;
+                    if let Ok((mut wr, _)) = writer.await {
+                        if write_all(&mut wr, &mbap_frame(0xFFFE, 1, &[3, 0, 0, 0, 1])).await {
+                            while let Ok(Ok(n)) = tokio::time::timeout(Duration::from_millis(1500), rd.read(&mut buf)).await {
+                                if n == 0 {
+                                    break;
+                                }
+                                nudged += n;
+                            }
+                        }
+                    }
+                    return Err(("reply-stream-stops".into(), format!("no more bytes for {STEP_TIMEOUT:?} after {got} of {total} (reply #{} at offset {}); after one further request had been sent, {nudged} more bytes arrived ({} expected for the withheld replies plus that request's own)", got / 259 + 1, got % 259, total - got + 11)));
+                }
+                Ok(Ok(0)) | Ok(Err(_)) => return Err(("reply-stream-ends".into(), format!("the connection ended after {got} of {total} bytes (reply #{} at offset {})", got / 259 + 1, got % 259))),
+                Ok(Ok(n)) => n,
+            };
+            for (j, b) in buf[..n].iter().enumerate() {
+                let pos = got + j;
+                let (idx, off) = (pos / 259 + 1, pos % 259);
+                let want_b = match off {
+                    0 => (idx >> 8) as u8,
+                    1 => idx as u8,
+                    _ => reference[off],
+                };
+                if *b != want_b {
+                    return Err(("reply-stream-corrupted".into(), format!("reply #{idx} of {m}, offset {off}: byte {b:02x}, expected {want_b:02x} (the stream is not the concatenation of the reply frames; context {})", hex(&buf[j.saturating_sub(8)..(j + 8).min(n)]))));
+                }
+            }
+            got += n;
+            if k % 4 == 0 {
+                // let the server fill its send queue again
+                tokio::time::sleep(Duration::from_micros(500)).await;
+            }
+        }
+        let (mut wr, ok) = writer.await.map_err(|e| ("MACHINERY:writer".to_string(), e.to_string()))?;
+        if !ok {
+            return Err(("MACHINERY:write".into(), "pipelined requests".into()));
+        }
+        // the session goes on
+        if !write_all(&mut wr, &mbap_frame(0xFFFF, 1, &[3, 0, 0, 0, 2])).await {
+            return Err(("session-lost-after-back-pressure".into(), "write failed".into()));
+        }
+        match read_n(&mut rd, 13, STEP_TIMEOUT).await {
+            ReadOutcome::Bytes(b) if b[..2] == [0xFF, 0xFF] && b[7] == 3 => Ok(()),
+            other => Err(("session-lost-after-back-pressure".into(), format!("{other:?}"))),
+        }
+    }
+    .await;
+    if let Err(e) = result {
+        problems.push(e);
+    }
+    let _ = tokio::time::timeout(Duration::from_millis(500), handle.shutdown()).await;
+    problems
+}
+
+pub fn backpressure_stream_phase(thorough: bool) -> Stats {
+    let m = if thorough { 12000 } else { 2500 };
+    let mut cases: Vec<(bool, bool, usize)> = vec![];
+    for tls in [false, true] {
+        for small in [true, false] {
+            for pattern in 0..4 {
+                cases.push((tls, small, pattern));
+            }
+        }
+    }
+    let cases = Arc::new(cases);
+    let results: Arc<std::sync::Mutex<Vec<(usize, Vec<(String, String)>)>>> = Arc::new(std::sync::Mutex::new(vec![]));
+    rt().block_on(async {
+        let sem = Arc::new(tokio::sync::Semaphore::new(8));
+        let mut joins = vec![];
+        for i in 0..cases.len() {
+            let (cases, results, sem) = (cases.clone(), results.clone(), sem.clone());
+            joins.push(tokio::spawn(async move {
+                let _p = sem.acquire().await.unwrap();
+                let (tls, small, pattern) = cases[i];
+                let mut r = run_backpressure_case(tls, small, m, pattern).await;
+                // bytes that are wrong are a fact; a stream that merely stopped must stop again
+                if !r.is_empty() && !r[0].0.starts_with("reply-stream-corrupted") {
+                    let r2 = run_backpressure_case(tls, small, m, pattern).await;
+                    if r2.is_empty() {
+                        r = r2;
+                    }
+                }
+                results.lock().unwrap().push((i, r));
+            }));
+        }
+        for j in joins {
+            let _ = j.await;
+        }
+    });
+    let mut st = Stats::default();
+    let mut res = results.lock().unwrap().clone();
+    res.sort_by_key(|x| x.0);
+    for (i, problems) in res {
+        let (tls, small, pattern) = cases[i];
+        st.evaluations += m as u64;
+        st.traces += 1;
+        st.transitions += m as u64;
+        st.class(if tls { "reply-stream-under-back-pressure:tls" } else { "reply-stream-under-back-pressure:tcp" });
+        st.observe(&(tls, small, pattern, problems.len()));
+        for (sig, desc) in problems {
+            st.violation(Violation {
+                signature: format!("{sig}:{}", if tls { "tls" } else { "tcp" }),
+                summary: format!("{} server, {} send buffer, {m} pipelined requests, read pattern {pattern}: {desc}", if tls { "TLS" } else { "TCP" }, if small { "4 KiB" } else { "default" }),
+                replay: json!({"kind": "c05-backpressure", "tls": tls, "small": small, "m": m, "pattern": pattern}),
+            });
+        }
+    }
+    st
+}
+
+pub fn replay_backpressure(v: &serde_json::Value) -> Vec<(String, String)> {
+    let tls = v["tls"].as_bool().unwrap();
+    let (small, m, pattern) = (v["small"].as_bool().unwrap(), v["m"].as_u64().unwrap() as usize, v["pattern"].as_u64().unwrap() as usize);
+    // a partial write of the kernel is needed: several attempts
+    for _ in 0..5 {
+        let r = rt().block_on(run_backpressure_case(tls, small, m, pattern));
+        if !r.is_empty() {
+            return r.into_iter().map(|(s, d)| (format!("{s}:{}", if tls { "tls" } else { "tcp" }), d)).collect();
+        }
+    }
+    vec![]
+}
+
 fn classify_sig(sig: &str, h: &History) -> String {
     let stalled = h.events.iter().any(|e| matches!(e, SEv::Stall(_) | SEv::ConnectSilent));
     let nine = h.events.iter().any(|e| matches!(e, SEv::SetDecode9));
